@@ -13,7 +13,7 @@ ASSUMPTIONS = [
     "AUTOBAHN_USE_NVX=0 so that autobahn.websocket.utf8validator defines the pure-Python class",
 ]
 BOUNDS = {
-    "quick": "all octet strings of length 0..5 (every octet a free 8-bit variable) x every split into <=3 chunks (empty chunks included) for the pure-Python validator; length 0..4 for decode(); NVX wrapper: length 0..4 x all <=3-chunk splits; inductive step: 9 reference states x 1 free octet (covers the verdict for strings of any length)",
+    "quick": "all octet strings of length 0..5 (every octet a free 8-bit variable) x every split into <=3 chunks (empty chunks included) for the pure-Python validator; length 0..4 for decode(); NVX wrapper: length 0..4 x all <=3-chunk splits; inductive step: 9 reference states x 1 free octet (covers the verdict for strings of any length); long inputs: 1-2 free octets + an ASCII run of 16/32/33/64/128 octets + 0-1 free octets, chunked around the run, both implementations",
     "thorough": "length 0..8 x every split into <=3 chunks, 0..5 x every split into <=4 chunks; NVX wrapper 0..6; inductive step as quick",
 }
 EXPECT_COVERS = ["py:long-ascii-run", "nvx:long-ascii-run", "py:accept-complete", "py:accept-incomplete", "py:reject", "nvx:accept-complete", "nvx:accept-incomplete",
